@@ -1,6 +1,6 @@
 (* Lease cluster, property C25: statements only.  The scripts are the ones translated from
    crates/fuel-core/redis_leader_lease_adapter_scripts/*.lua on this run (LuaScripts.v). *)
-From FC Require Import Lease.Model Lease.ProofsStr Lease.ProofsRO Lease.ProofsNode Lease.ProofsWrite Lease.ProofsEpoch Lease.Proofs25.
+From FC Require Import Lease.Model Lease.ProofsStr Lease.ProofsRO Lease.ProofsNode Lease.ProofsWrite Lease.ProofsEpoch Lease.Proofs25 Lease.ProofsRead Lease.ProofsSys Lease.ProofsSys3.
 Open Scope str_scope.
 Open Scope N_scope.
 
@@ -98,6 +98,29 @@ Theorem calculate_quorum_is_intersecting : forall n b,
   (n / 2 + 1 + b <= n)%nat -> (n + b < 2 * calculate_quorum n b)%nat.
 Proof. exact calculate_quorum_intersects. Qed.
 Print Assumptions calculate_quorum_is_intersecting.
+
+(* every decoded item of a read_stream_entries.lua reply is an entry of the node's stream, in
+   stream order and each entry at most once *)
+Theorem read_entries_sound : forall m c nd items, stream_wf nd ->
+  dec_entries (Some (fst (node_exec (CEntries m c) nd))) = Some items ->
+  exists xs, sub xs (node_stream nd) /\ items = map triple xs.
+Proof. exact entries_sound. Qed.
+Print Assumptions read_entries_sound.
+
+(* C25, the variant that holds: in every run of the transition system (any interleaving of script
+   executions, lost / delayed / abandoned requests and replies, lease expiry, replica restarts,
+   any arrival order of write replies, any tie-break of the vote) in which
+     - every node's stream is sorted by height in every visited state   (sorted_sys),
+     - no node loses its data and the approximate XTRIM never evicts    (allowed),
+     - two quorums intersect                                            (n < 2q),
+   no two replicas hold different committed blocks at one height.  The stream-order hypothesis is
+   exactly what repair_sub_quorum_block violates (no_fork_refuted below). *)
+Theorem no_fork_sorted : forall c : cfg, (c_n c < 2 * c_q c)%nat ->
+  forall (reps : nat) (acts : list action),
+  sorted_run c (init_sys c reps) acts ->
+  has_fork (run c (init_sys c reps) acts) = false.
+Proof. exact no_fork_sorted_all. Qed.
+Print Assumptions no_fork_sorted.
 
 (* C25 as stated (no two replicas commit different blocks at one height) is REFUTED for the scripts
    and the adapter as written: a schedule of the transition system, without any loss of data *)
